@@ -104,6 +104,10 @@ def run(rep):
         raise tlc.MachineryError(f"canary failure: accepted {wrongly}; control accepted={len(cans) in a}")
     rep.extra["canaries_rejected"] = [c[0] for c in cans]
     part_foreign(rep)
+    # the per-type decision table of the parameters cell (TypeParams.tla), this property's clauses
+    from harness.props import _typeparams
+
+    _typeparams.run(rep, PROP)
 
 
 def _run_free(job):
@@ -146,6 +150,10 @@ def part_foreign(rep):
 
 def replay(rep, case):
     c = case["case"]
+    if c.get("typeparams"):
+        from harness.props import _typeparams
+
+        return _typeparams.replay(rep, PROP, c)
     if c.get("foreign"):
         o = _run_free({"wb": c["wb"], "kwargs": c.get("kwargs"), "tag": c.get("tag")})
         acc, info = tlc.validate_traces("Trace_Choices", corpus._cfg("Trace_Choices.cfg", TRACE_CFG), [o["trace"]], shards=1, tag="replay")
